@@ -21,6 +21,7 @@
 //! diagnostic position the server reports must denote, in UTF-16 units, the place in the
 //! editor's text that the harness computes with its own reference conversion.
 
+pub mod editor;
 pub mod lspc;
 
 use std::cell::Cell;
@@ -132,6 +133,14 @@ pub struct Case {
     /// increase, editors skip numbers.
     #[serde(default)]
     pub versions: Vec<u16>,
+    /// What the editor asks after each op (cycled): (mask, r1, r2). Mask bits: 1 = semantic
+    /// tokens (full the first time, then full/delta applied to the editor's array), 2 =
+    /// verify that array against semanticTokens/full and check semanticTokens/range for the
+    /// range derived from r1/r2, 4 = textDocument/diagnostic with previousResultId, 8 =
+    /// verify the kept items against a fresh pull, 16 = workspace/diagnostic with
+    /// previousResultIds.
+    #[serde(default)]
+    pub probes: Vec<(u8, u8, u8)>,
 }
 
 impl Case {
@@ -470,7 +479,14 @@ pub fn case_from_tapes(text_tape: &Tape, tape: &Tape) -> Case {
     } else {
         (0..1 + r.pick(5)).map(|_| *r.choose(&[1u16, 1, 2, 3, 7, 100, 0])).collect()
     };
-    Case { s0, notes: Vec::new(), ops, lib0, language_id, versions }
+    // (rare alternatives in the middle)
+    let probes: Vec<(u8, u8, u8)> = (0..n_ops)
+        .map(|_| {
+            let mask = *r.choose(&[0u8, 1, 1 | 2, 4, 31, 16, 1 | 4, 4 | 8, 1 | 2 | 4 | 8, 1, 0, 0]);
+            (mask, r.pick(256) as u8, r.pick(256) as u8)
+        })
+        .collect();
+    Case { s0, notes: Vec::new(), ops, lib0, language_id, versions, probes }
 }
 
 fn gen_note(r: &mut Reader, buf: &mut String, eol_mode: usize) -> Vec<Change> {
@@ -583,6 +599,7 @@ struct Facts {
     /// classes of wrong rangeLength values sent (robustness class)
     rl_wrong: Vec<&'static str>,
     empty_note: bool,
+    probes: usize,
     disk_write: bool,
     disk_write_differs: bool,
     disk_delete: bool,
@@ -686,6 +703,16 @@ struct Answers {
     formatting: J,
     diag_pull: J,
     diag_push: J,
+    code_lens: J,
+    links: J,
+    inlay: J,
+    /// first failure of a stateful channel (tokens delta/range, diagnostics with previous
+    /// result ids, workspace diagnostics)
+    editor_failure: Option<String>,
+    range_origin_relative: bool,
+    editor_labels: Vec<String>,
+    /// push oracle: "match", "nothing", "unjudged" or "mismatch"
+    push: &'static str,
 }
 
 fn strip_result_id(v: &J) -> J {
@@ -699,20 +726,56 @@ fn strip_result_id(v: &J) -> J {
     }
 }
 
-fn query(s: &mut Server, uri: &str, dir_uri: &str) -> Result<Answers, LspError> {
-    let tokens = s.doc_request("textDocument/semanticTokens/full", uri)?;
+/// Push oracle settings of a worker (see `editor::judge_push`).
+struct PushCfg {
+    quiet: std::time::Duration,
+    max: std::time::Duration,
+    /// mismatches seen so far in this worker; judging stops at `budget` (every mismatch is
+    /// reported; shrinking a failing case otherwise waits `quiet` for each candidate)
+    mismatches: Cell<u32>,
+    budget: u32,
+}
+
+fn query(s: &mut Server, uri: &str, dir_uri: &str, text: &str, ed: &mut editor::EditorState, push: &PushCfg) -> Result<Answers, LspError> {
+    // the editor brings its own state up to date first (delta / previousResultId), then the
+    // fresh answers are fetched and the two compared
+    if ed.tokens.is_some() {
+        ed.tokens_incremental(s, uri)?;
+    }
+    let tokens = ed.tokens_verify(s, uri, "at the end of the session")?;
+    let lines = line_starts(text).len() as u32;
+    ed.tokens_range(s, uri, text, &tokens, ((lines / 3, 0), (lines.saturating_sub(1), 100_000)))?;
     let symbols = s.doc_request("textDocument/documentSymbol", uri)?;
     let folding = s.doc_request("textDocument/foldingRange", uri)?;
     let formatting = s.request(
         "textDocument/formatting",
         json!({"textDocument": {"uri": uri}, "options": {"tabSize": 4, "insertSpaces": true}}),
     )?;
-    let diag_pull = s.doc_request("textDocument/diagnostic", uri)?;
-    // Published diagnostics are a statistic only, never part of the verdict: the server
-    // writes them to the wire independently of responses, re-publishes from other handlers
-    // (watcher events, deletion) and truncates a computation that another thread
-    // "cancelled", so the latest one seen is not reliably the one for the final text.
-    s.drain()?;
+    if ed.diagnostics.is_some() {
+        ed.diagnostics_incremental(s, uri)?;
+    }
+    let diag_pull = ed.diagnostics_verify(s, uri, "at the end of the session")?;
+    let code_lens = s.doc_request("textDocument/codeLens", uri)?;
+    let links = s.doc_request("textDocument/documentLink", uri)?;
+    let inlay = s.request(
+        "textDocument/inlayHint",
+        json!({"textDocument": {"uri": uri}, "range": {"start": {"line": 0, "character": 0}, "end": {"line": lines, "character": 0}}}),
+    )?;
+    // Push channel. All notifications of the session were processed before the requests
+    // above were answered, so the server's state is final (see `editor::judge_push`).
+    let pulled_items = diag_pull.get("items").cloned().unwrap_or(J::Null);
+    let push_outcome = if push.mismatches.get() >= push.budget {
+        "unjudged"
+    } else {
+        match editor::judge_push(s, uri, &pulled_items, push.quiet, push.max)? {
+            editor::Push::Match => "match",
+            editor::Push::Nothing => "nothing",
+            editor::Push::Mismatch(_) => {
+                push.mismatches.set(push.mismatches.get() + 1);
+                "mismatch"
+            }
+        }
+    };
     let diag_push = s
         .published
         .get(uri)
@@ -727,6 +790,13 @@ fn query(s: &mut Server, uri: &str, dir_uri: &str) -> Result<Answers, LspError> 
         formatting: scrub_uri(&formatting, dir_uri),
         diag_pull: scrub_uri(&strip_result_id(&diag_pull), dir_uri),
         diag_push: scrub_uri(&diag_push, dir_uri),
+        code_lens: scrub_uri(&code_lens, dir_uri),
+        links: scrub_uri(&links, dir_uri),
+        inlay: scrub_uri(&inlay, dir_uri),
+        editor_failure: ed.failure.take(),
+        range_origin_relative: ed.range_origin_relative,
+        editor_labels: std::mem::take(&mut ed.labels),
+        push: push_outcome,
     })
 }
 
@@ -743,6 +813,19 @@ enum Step {
     DidSave(String),
     Close,
     Open(String),
+    /// what the editor asks at this point: mask, range for semanticTokens/range, the
+    /// editor's buffer at this point, and a description for messages
+    Probe { mask: u8, range: ((u32, u32), (u32, u32)), buffer: String, when: String },
+}
+
+/// Range for a `semanticTokens/range` probe, derived from two bytes and the buffer.
+fn probe_range(buf: &str, r1: u8, r2: u8) -> ((u32, u32), (u32, u32)) {
+    let lines = line_starts(buf).len() as u32;
+    let l1 = (r1 as u32 * lines) / 256;
+    let l2 = l1 + (r2 as u32 % 8);
+    let c1 = if r2 & 0x80 != 0 { r1 as u32 % 20 } else { 0 };
+    let c2 = if r2 & 0x40 != 0 { 100_000 } else { 0 };
+    ((l1, c1), (l2.min(lines.saturating_sub(1)), if l2 >= lines { 100_000 } else { c2 }))
 }
 
 /// The editor's view at the end of the session.
@@ -765,7 +848,8 @@ fn simulate(case: &Case) -> Option<Outcome> {
     let mut lib = case.lib0.map(lib_text);
     let mut facts = Facts::default();
     let mut steps = Vec::new();
-    for op in case.session() {
+    for (op_index, op) in case.session().into_iter().enumerate() {
+        let op_name = format!("{op:?}");
         match op {
             Op::Note(changes) => {
                 if changes.len() > 1 {
@@ -835,6 +919,18 @@ fn simulate(case: &Case) -> Option<Outcome> {
                 steps.push(Step::Open(buf.clone()));
             }
         }
+        if !case.probes.is_empty() {
+            let (mask, r1, r2) = case.probes[op_index % case.probes.len()];
+            if mask != 0 {
+                facts.probes += 1;
+                steps.push(Step::Probe {
+                    mask,
+                    range: probe_range(&buf, r1, r2),
+                    buffer: buf.clone(),
+                    when: format!("after op {op_index}: {}", clip(&op_name, 60)),
+                });
+            }
+        }
     }
     Some(Outcome { steps, buffer: buf, disk, lib, facts })
 }
@@ -874,7 +970,8 @@ fn teardown(s: &mut Server, p: &Place) -> Result<(), LspError> {
     s.barrier()
 }
 
-fn run_a(s: &mut Server, p: &Place, case: &Case, out: &Outcome) -> Result<Answers, LspError> {
+fn run_a(s: &mut Server, p: &Place, case: &Case, out: &Outcome, push: &PushCfg) -> Result<Answers, LspError> {
+    let mut ed = editor::EditorState::default();
     io(std::fs::create_dir_all(&p.dir), "create directory")?;
     if let Some(v) = case.lib0 {
         io(std::fs::write(p.lib_path(), lib_text(v)), "write lib.st")?;
@@ -933,16 +1030,35 @@ fn run_a(s: &mut Server, p: &Place, case: &Case, out: &Outcome) -> Result<Answer
                 version += next_step();
                 open(s, version, t)?;
             }
+            Step::Probe { mask, range, buffer, when } => {
+                if mask & 1 != 0 {
+                    ed.tokens_incremental(s, &p.uri)?;
+                }
+                if mask & 2 != 0 {
+                    let full = ed.tokens_verify(s, &p.uri, when)?;
+                    ed.tokens_range(s, &p.uri, buffer, &full, *range)?;
+                }
+                if mask & 4 != 0 {
+                    ed.diagnostics_incremental(s, &p.uri)?;
+                }
+                if mask & 8 != 0 {
+                    ed.diagnostics_verify(s, &p.uri, when)?;
+                }
+                if mask & 16 != 0 {
+                    ed.workspace_diagnostics(s, &p.uri, when)?;
+                }
+            }
         }
     }
-    let a = query(s, &p.uri, &p.dir_uri);
+    let a = query(s, &p.uri, &p.dir_uri, &out.buffer, &mut ed, push);
     teardown(s, p)?;
     a
 }
 
 /// The fresh document: same folder contents (lib.st and the document's file as they are
 /// on disk at the end of the session), one didOpen with the editor's buffer.
-fn run_b(s: &mut Server, p: &Place, out: &Outcome) -> Result<Answers, LspError> {
+fn run_b(s: &mut Server, p: &Place, out: &Outcome, push: &PushCfg) -> Result<Answers, LspError> {
+    let mut ed = editor::EditorState::default();
     io(std::fs::create_dir_all(&p.dir), "create directory")?;
     if let Some(lib) = &out.lib {
         io(std::fs::write(p.lib_path(), lib), "write lib.st")?;
@@ -952,7 +1068,7 @@ fn run_b(s: &mut Server, p: &Place, out: &Outcome) -> Result<Answers, LspError> 
         io(std::fs::write(p.main_path(), disk), "write unit.st")?;
     }
     s.did_open(&p.uri, 1, &out.buffer)?;
-    let a = query(s, &p.uri, &p.dir_uri);
+    let a = query(s, &p.uri, &p.dir_uri, &out.buffer, &mut ed, push);
     teardown(s, p)?;
     a
 }
@@ -1163,6 +1279,10 @@ struct Env {
     #[allow(dead_code)]
     worker: usize,
     counter: Cell<u64>,
+    push: PushCfg,
+    /// judge the push channel (false: label only)
+    judge_push: bool,
+    range_origin_open: bool,
 }
 
 fn check_case(case: &Case, probe: &mut Probe, env: &Env) -> Result<(), String> {
@@ -1249,7 +1369,7 @@ fn check_case(case: &Case, probe: &mut Probe, env: &Env) -> Result<(), String> {
     };
     let place_a = Place::new(&ws_a, &format!("k{k}a"));
 
-    let res_a = env.pool.with(|s| run_a(s, &place_a, case, &out));
+    let res_a = env.pool.with(|s| run_a(s, &place_a, case, &out, &env.push));
     // whatever happened: nothing of this case may be left for the indexer of a restarted server
     let _ = std::fs::remove_dir_all(&place_a.dir);
     let Some(a) = settle(res_a).map_err(|m| format!("{class_note}{m}"))? else {
@@ -1264,7 +1384,7 @@ fn check_case(case: &Case, probe: &mut Probe, env: &Env) -> Result<(), String> {
         _ => &env.pool,
     };
     let place_b = Place::new(&b_pool.workspace_dir().unwrap_or(ws_a), &format!("k{k}b"));
-    let res_b = b_pool.with(|s| run_b(s, &place_b, &out));
+    let res_b = b_pool.with(|s| run_b(s, &place_b, &out, &env.push));
     let _ = std::fs::remove_dir_all(&place_b.dir);
     let Some(b) = settle(res_b)? else {
         probe.label("skipped:infrastructure");
@@ -1288,13 +1408,27 @@ fn check_case(case: &Case, probe: &mut Probe, env: &Env) -> Result<(), String> {
         }));
     }
     for (who, ans) in [("a", &a), ("b", &b)] {
-        let pulled = ans.diag_pull.get("items").cloned().unwrap_or(J::Null);
-        if ans.diag_push.is_null() {
-            probe.label(format!("push({who}):none-yet"));
-        } else if ans.diag_push == pulled {
-            probe.label(format!("push({who})=pull"));
-        } else {
-            probe.label(format!("push({who})!=pull(stale-or-truncated)"));
+        probe.label(format!("push({who}):{}", ans.push));
+        for l in &ans.editor_labels {
+            probe.label(format!("editor({who}):{l}"));
+        }
+    }
+    if facts.probes > 0 {
+        probe.label("session:with-editor-probes");
+    }
+    // stateful channels: the editor's reconstructed state against the fresh answers
+    for (who, ans) in [("edited document", &a), ("freshly opened document", &b)] {
+        if let Some(msg) = &ans.editor_failure {
+            return Err(format!("{class_note}{who}: {msg}\n  editor buffer: {:?}", clip(&buf, 300)));
+        }
+        if ans.range_origin_relative {
+            if env.range_origin_open {
+                probe.known(editor::RANGE_ORIGIN_KEY);
+            } else {
+                return Err(format!(
+                    "{who}: semanticTokens/range encodes its first token relative to the start of the requested range instead of line 0, column 0"
+                ));
+            }
         }
     }
 
@@ -1304,6 +1438,9 @@ fn check_case(case: &Case, probe: &mut Probe, env: &Env) -> Result<(), String> {
         ("textDocument/documentSymbol", &a.symbols, &b.symbols),
         ("textDocument/foldingRange", &a.folding, &b.folding),
         ("textDocument/diagnostic", &a.diag_pull, &b.diag_pull),
+        ("textDocument/codeLens", &a.code_lens, &b.code_lens),
+        ("textDocument/documentLink", &a.links, &b.links),
+        ("textDocument/inlayHint", &a.inlay, &b.inlay),
     ] {
         if x != y {
             return Err(format!(
@@ -1318,6 +1455,19 @@ fn check_case(case: &Case, probe: &mut Probe, env: &Env) -> Result<(), String> {
         }
     }
     check_absolute(&buf, &b, probe)?;
+    // push channel: the last publishDiagnostics after the server went quiet must equal the
+    // pulled diagnostics (which were just found equal for A and B)
+    if env.judge_push {
+        for (who, ans) in [("edited document", &a), ("freshly opened document", &b)] {
+            if ans.push == "mismatch" {
+                return Err(format!(
+                    "{class_note}{who}: the last textDocument/publishDiagnostics after the server went quiet differs from textDocument/diagnostic for the same text (the editor shows diagnostics of another text): {}\n  editor buffer: {:?}",
+                    first_diff(&ans.diag_push, &ans.diag_pull.get("items").cloned().unwrap_or(J::Null)),
+                    clip(&buf, 300)
+                ));
+            }
+        }
+    }
     Ok(())
 }
 
@@ -1329,6 +1479,16 @@ fn run(ctx: &mut RunCtx) {
         pool_b: (tier == Tier::Thorough).then(|| Pool::new(StartOpts::plain(&format!("{tag}-b")))),
         worker: ctx.worker,
         counter: Cell::new(0),
+        push: PushCfg {
+            quiet: std::time::Duration::from_millis(
+                std::env::var("TPV_C14_PUSH_QUIET_MS").ok().and_then(|v| v.parse().ok()).unwrap_or(4000),
+            ),
+            max: std::time::Duration::from_secs(120),
+            mismatches: Cell::new(0),
+            budget: 25,
+        },
+        judge_push: std::env::var("TPV_C14_PUSH").map(|v| v != "label").unwrap_or(true),
+        range_origin_open: ctx.is_open(editor::RANGE_ORIGIN_KEY),
     };
     if !lspc::lsp_bin().is_file() {
         ctx.inconclusive(format!(
